@@ -223,6 +223,18 @@ def gallery(c, member):
         c.holds(f'gradient_is_derivative_of_own_logd[{k}]', bool(np.allclose(g, fd, rtol=1e-4, atol=1e-5 * (1 + np.max(np.abs(fd))))), note=f"at {x}: gradient {g} vs central differences {fd}")
 
 
+def callable_parameter_refused(c, fam, n=2):
+    """a likelihood whose location parameter is a plain callable (not a model with a gradient): the gradient is refused (raises) - never `None` or another
+    non-gradient handed back"""
+    from cuqi.distribution import Lognormal, CMRF
+    x = c.vec('x', n); y = c.vec('y', n, pos=(fam == 'Lognormal'))
+    if fam == 'Gaussian': d = Gaussian(lambda x: 2 * x, c.real('v', pos=True), geometry=n, name='y')
+    elif fam == 'Lognormal': d = Lognormal(lambda x: 2 * x, c.real('v', pos=True), geometry=n, name='y')
+    else: d = CMRF(lambda x: 2 * x, c.real('v', pos=True), 'zero', geometry=n, name='y')
+    L = d.to_likelihood(y)
+    c.expect_raise('gradient_refused_not_none', lambda: L.gradient(x))
+
+
 def reassignment_history(c, kind, n=3):
     """gradient, then assign new parameter values to the SAME object, then gradient again: still the derivative of the
     object's current log-density (no stale intermediate results survive a parameter change)"""
@@ -317,6 +329,8 @@ def jobs(tier):
     for kind in ('Gaussian:cov', 'Gaussian:prec', 'GMRF', 'CMRF', 'Cauchy', 'conditional_GMRF'):
         J.append(Job(f'history:gradient_after_parameter_reassignment:{kind}', lambda c, k=kind: reassignment_history(c, k), 'Pbox', Dg, rtol=1e-4))
     J.append(Job('UserDefinedDistribution.gradient', userdefined, 'Pbox', [f'{D}._custom:UserDefinedDistribution.gradient']))
+    for fam in ('Gaussian', 'Lognormal', 'CMRF'):
+        J.append(Job(f'Likelihood.gradient:plain_callable_location:{fam}', lambda c, f=fam: callable_parameter_refused(c, f), 'B', [f'{D}._gaussian:Gaussian._gradient', f'{D}._lognormal:Lognormal._gradient', f'{D}._cmrf:CMRF._gradient'], nnum=1))
     for form in ('scalar', 'vector'):
         J.append(Job(f'MHN.gradient:{form}:n=3', lambda c, f=form: mhn_gradient(c, f), 'B', [f'{D}._modifiedhalfnormal:ModifiedHalfNormal._gradient'], nnum=2))
     for member in ('CalSom91', 'BivariateGaussian', 'funnel', 'mixture', 'squiggle', 'donut'):
